@@ -110,7 +110,7 @@ func c03Bookkeeping(c *core.Ctx, f *core.FSM) {
 			row, ok := f.Lookup(ev, st)
 			key := ev + "@" + st
 			if !ok {
-				c.OK("C03.1", key, "", "rejected (no row)")
+				c.Triv("C03.1", key, "", "rejected (no row)")
 				continue
 			}
 			if ev == "ResumeResponder" && st == "Finalizing" {
